@@ -40,6 +40,7 @@ ASSUMPTIONS = [
     'DPA data are uint8 bit arrays (the only dtype DPADistinguisher._initialize accepts) with values 0/1 in every batch',
     'data arrays have at least one word dimension (data.shape = (n, d1, .., dk), k >= 1)',
     'no float overflow: float32 runs keep |x| <= 2^40',
+    'large trace counts (65535 .. 2^24+3) are exercised with 1 sample x 1-2 words and values 0..5 only',
 ]
 
 HDR = 'From ScaredV Require Import Model.Cpa.'
@@ -510,4 +511,137 @@ class DpaKind(CorrKind):
             'in exact rationals')
 
 
-KINDS = [CpaKind(), CpaAltKind(), DpaKind()]
+# ----------------------------------------------------------------------------------------------- large trace counts
+
+LARGE_N = [65535, 65536, 131071, 131072, 140000, 200000]
+
+
+def _split_total(rng, total, parts):
+    """`parts` positive integers summing to `total` (total >= parts)."""
+    cuts = sorted(rng.sample(range(1, total), parts - 1)) if parts > 1 else []
+    return [b - a for a, b in zip([0] + cuts, cuts + [total])]
+
+
+def _interleave(rng, groups):
+    """Merge lists of runs keeping the order inside each list (rng decides which list gives the next run)."""
+    groups = [list(g) for g in groups if g]
+    out = []
+    while groups:
+        g = rng.choice(groups)
+        out.append(g.pop(0))
+        if not g:
+            groups.remove(g)
+    return out
+
+
+def make_large(rng, kind, n, prec, W, balance=None, constant_word=False):
+    """Run-length encoded history: runs [x, [words], count] in feeding order; small integer values so that every float
+    sum is exact in float64 (and in float32 up to 200000 traces)."""
+    if kind == 'dpa':
+        n1 = n // 2 if balance == 'balanced' else max(1, n // 20)
+        ones = [[rng.randint(0, 5), [1] + [rng.randint(0, 1) for _ in range(W - 1)], c] for c in _split_total(rng, n1, rng.randint(4, 12))]
+        zeros = [[rng.randint(0, 5), [0] + [rng.randint(0, 1) for _ in range(W - 1)], c] for c in _split_total(rng, n - n1, rng.randint(4, 12))]
+        runs = _interleave(rng, [ones, zeros])
+    else:
+        runs = [[rng.randint(0, 5), [rng.randint(0, 3) for _ in range(W)], c] for c in _split_total(rng, n, rng.randint(8, 24))]
+        if constant_word:
+            for r in runs:
+                r[1][W - 1] = 2
+    k = rng.choice([1, 2, 3])
+    splits = _split_total(rng, n, k) if rng.random() < 0.5 else ([65536, n - 65536] if n > 65536 and k > 1 else [n])
+    return {'kind': kind, 'precision': prec, 'W': W, 'runs': runs, 'splits': splits, 'n': n,
+            'block': f'{balance or ("constant_word" if constant_word else "random")}'}
+
+
+class LargeNKind(Kind):
+    name = 'large_n'
+    header = HDR
+    case_type = 'rl_case'
+    check_fn = 'rl_check'
+    explain_fn = 'rl_explain'
+    shard = 8
+    rule = ('update (1-3 big batches) + compute of the three classes on n = 65535, 65536, 131071, 131072, 140000, 200000 and 2^24+3 '
+            'traces x 1 sample x 1-2 words, rows run-length encoded (value, words, repetitions) and evaluated as weighted sums inside '
+            'Coq (Props/C03.run_length_spec_is_the_spec); DPA with exactly n/2 ones and with 5 % ones; small integer values (float sums '
+            'exact); float64 and float32; integer counters / products that overflow at large trace counts are visible here only')
+
+    def gen(self, rng, tier):
+        reps = 1 if tier == 'quick' else 4
+        for rep in range(reps):
+            i = 0
+            for n in LARGE_N:
+                for balance in ('balanced', 'sparse'):
+                    i += 1
+                    yield make_large(rng, 'dpa', n, 'float64' if (i + rep) % 3 else 'float32', 1 + (i % 2), balance=balance)
+                for kind in ('cpa', 'cpa_alt'):
+                    i += 1
+                    yield make_large(rng, kind, n, 'float64' if (i + rep) % 3 else 'float32', 1 + (i % 2), constant_word=(i % 5 == 0))
+            for kind in ('dpa', 'cpa', 'cpa_alt'):
+                yield make_large(rng, kind, 2 ** 24 + 3, 'float64', 1, balance='balanced')
+
+    def run(self, case):
+        import warnings
+        import scared
+        runs = case['runs']
+        counts = np.array([r[2] for r in runs], dtype='int64')
+        n = int(counts.sum())
+        if n != case['n'] or sum(case['splits']) != n:
+            raise HarnessError('C03 harness: run lengths do not sum to n')
+        traces = np.repeat(np.array([[r[0]] for r in runs], dtype='uint8'), counts, axis=0)
+        data = np.repeat(np.array([r[1] for r in runs], dtype='uint8'), counts, axis=0)
+        pos = 0
+        for r in runs:      # the arrays handed to the code are the expansion of the runs (integer comparisons)
+            if not ((traces[pos:pos + r[2], 0] == r[0]).all() and (data[pos:pos + r[2]] == np.array(r[1], dtype='uint8')).all()):
+                raise HarnessError('C03 harness: expanded array does not match the runs')
+            pos += r[2]
+        if traces.shape != (n, 1) or data.shape != (n, case['W']):
+            raise HarnessError('C03 harness: wrong expanded shape')
+        d = getattr(scared, CLS[case['kind']])(precision=case['precision'])
+        with warnings.catch_warnings():
+            warnings.simplefilter('ignore')
+            pos = 0
+            for b in case['splits']:
+                d.update(traces[pos:pos + b], data[pos:pos + b])
+                pos += b
+            r = d.compute()
+        return {'shape': list(r.shape), 'values': [float(v) for v in _flat(r.tolist())], 'dtype': str(r.dtype),
+                'processed': int(d.processed_traces)}
+
+    def coq(self, case, obs):
+        shape, vals = (obs.get('shape', []), obs.get('values', [])) if 'raised' not in obs else ([], [])
+        runs = C.coq_list(case['runs'], lambda r: '(%s, %s, %d%%positive)' % (C.coq_z(r[0]), C.coq_list(r[1], C.coq_z), r[2]))
+        return ('{| r_kind := %s; r_prec := %s; r_W := %s; r_runs := %s; r_obs_shape := %s; r_obs := %s |}' % (
+            COQ_KIND[case['kind']], 'F32' if case['precision'] == 'float32' else 'F64', C.coq_nat(case['W']), runs,
+            C.coq_list(shape, C.coq_nat), C.coq_list(vals, core.float_to_coq)))
+
+    def oracle(self, case, obs):
+        if 'raised' in obs:
+            return f'{CLS[case["kind"]]} update/compute raised {obs["raised"]}: {obs["msg"]}'
+        if obs['processed'] != case['n']:
+            return f'processed_traces = {obs["processed"]} after {case["n"]} traces'
+        return None
+
+    def nontrivial(self, case, obs):
+        return any(v == v for v in obs.get('values', []))
+
+    def features(self, case, obs):
+        return {'class': case['kind'], 'precision': case['precision'], 'n': case['n'], 'block': case['block'], 'batches': len(case['splits'])}
+
+    def tags(self, case, obs):
+        return ['large_n', f'large_n_{case["kind"]}']
+
+    def shrink(self, case):
+        runs = case['runs']
+        if case['W'] > 1:
+            for w in range(case['W']):
+                if not (case['kind'] == 'dpa' and False):
+                    yield dict(case, W=1, runs=[[r[0], [r[1][w]], r[2]] for r in runs])
+        if len(case['splits']) > 1:
+            yield dict(case, splits=[case['n']])
+        # merge neighbouring runs with the same row, then merge rows (keeps n)
+        for i in range(len(runs) - 1):
+            merged = runs[:i] + [[runs[i][0], runs[i][1], runs[i][2] + runs[i + 1][2]]] + runs[i + 2:]
+            yield dict(case, runs=merged, splits=[case['n']])
+
+
+KINDS = [CpaKind(), CpaAltKind(), DpaKind(), LargeNKind()]
